@@ -187,18 +187,22 @@ func sumColumn(rows []map[string]any, colName string) float64 {
 	for _, rowData := range rows {
 		val, ok := rowData[colName]
 		if ok {
-			switch v := val.(type) {
-			case int:
-				sum += float64(v)
-			case float64:
+			if v, isNum := groupNumeric(val); isNum {
 				sum += v
-			case float32:
-				sum += float64(v)
 			}
 		}
 	}
 
 	return sum
+}
+
+// groupNumeric reports the float64 value of a cell holding any Go integer or float
+// type. Text is not numeric here, even if it looks like a number.
+func groupNumeric(val any) (float64, bool) {
+	if _, isText := val.(string); isText {
+		return 0, false
+	}
+	return toFloat(val)
 }
 
 func (gdf *GroupedDataFrame) GetAllColumnNames() []string {
@@ -274,18 +278,9 @@ func averageColumn(rows []map[string]any, colName string) float64 {
 	for _, rowData := range rows {
 		val, ok := rowData[colName] // access the row data
 		if ok {
-			switch v := val.(type) {
-			case int:
-				sum += float64(v)
-				count++
-			case float64:
+			if v, isNum := groupNumeric(val); isNum {
 				sum += v
 				count++
-			case float32:
-				sum += float64(v)
-				count++
-			default:
-				continue
 			}
 		}
 	}
